@@ -38,7 +38,7 @@ try:
     meta["tests_pass"] = ("failed" not in t.stdout and "error" not in t.stdout.lower()) and t.returncode == 0
     meta["detected"] = {}
     for pr in props:
-        c = run(f"cd /verif && PYVC_REPO={wt} ./check {pr} --tier quick", timeout=3000)
+        c = run(f"cd /verif && PYVC_REPO={wt} PYVC_OUT_DIR=/tmp/ev_out_{pid}_{var} ./check {pr} --tier quick", timeout=3000)
         lines = [l for l in c.stdout.splitlines() if l.startswith("VIOLATION")]
         meta["detected"][pr] = {"exit": c.returncode, "violations": len(lines),
                                 "first": [l[:300] for l in lines[:4]], "summary": c.stdout.strip().splitlines()[-1][:300] if c.stdout.strip() else c.stderr[-300:]}
